@@ -265,6 +265,101 @@ def tokenize(text: str) -> list:
     return blocks
 
 
+# ----------------------------------------------------------------------------- history: unrelated public-API calls
+# atoms / bonds that ALREADY carry a type are re-typed with the tokens of the text under test, other texts are read,
+# other objects are written.  None of this touches the object under test; hidden process-wide state (memo tables,
+# caches keyed by token or type, module-level "current" objects) is what it is meant to disturb.
+PRE_TYPED = (("Aromatic", "R3_Planar"), ("sp3", "R4_Tetrahedral"), ("Dummy", "R6_Octahedral"), ("N_Amide", "R1"),
+             ("O_Sulfone", "R2_Bent"), ("sp2", "R3_Pyramidal"), ("C_Guanidinium", "R4_SquarePlanar"), ("sp", "R2_Linear"))
+
+
+def retype_pretyped(tok: str, rnd) -> int:
+    """set_mol2_type(tok) + get_mol2_type() on already-typed atoms (of the token's own element and of another one)."""
+    from molli.chem.atom import Element, AtomType, AtomGeom, Atom
+    E = {e.symbol: e for e in Element}
+    own = E.get(tok.partition(".")[0]) or E.get(tok.partition(".")[2]) or Element.C
+    pre = list(PRE_TYPED)
+    rnd.shuffle(pre)
+    n = 0
+    for at, g in pre:
+        for el in (own, rnd.choice((Element.C, Element.N, Element.S, Element.Fe))):
+            a = Atom(el, atype=AtomType[at], geom=AtomGeom[g], label="h")
+            try:
+                n += 2
+                a.set_mol2_type(tok)
+                a.get_mol2_type()
+            except Exception:
+                pass                                   # e.g. "N.4" on a non-nitrogen: not under test here
+    return n
+
+
+def retype_prebonded(tok: str, rnd) -> int:
+    from molli.chem.atom import Atom
+    from molli.chem.bond import Bond, BondType
+    n = 0
+    for bt in rnd.sample(list(BondType), 4):
+        b = Bond(Atom("C"), Atom("N"), btype=bt)
+        try:
+            n += 2
+            b.set_mol2_type(tok)
+            b.get_mol2_type()
+        except Exception:
+            pass
+    return n
+
+
+def history_calls(text_blocks: list, rnd, prev=None) -> dict:
+    """Unrelated calls for the tokens of a text (+ reading / writing the previous case's text / object)."""
+    import molli as ml
+    toks = sorted({a["tok"]["pre"] + ("." + a["tok"]["suf"] if a["tok"]["suf"] else "") for b in text_blocks for a in b["atoms"]})
+    btoks = sorted({x["tok"] for b in text_blocks for x in b["bonds"]})
+    n = sum(retype_pretyped(t, rnd) for t in toks) + sum(retype_prebonded(t, rnd) for t in btoks)
+    other = 0
+    if prev is not None:
+        ptext, pobj = prev
+        try:
+            if ptext:
+                ml.Molecule.loads_all_mol2(ptext)
+                other += 1
+            if pobj is not None:
+                _dumps(pobj)
+                other += 1
+        except Exception:
+            pass
+    return {"ev": "history", "retyped_tokens": toks + btoks, "calls": n + other, "other_texts": other}
+
+
+def typing_history_rows(items: list, seed: int):
+    """items = [(el, at, g)], one per distinct emitted token.  In a FRESH process: the token is first interpreted on
+    already-typed atoms (history), only then on a fresh atom; the usual atype chain is recorded.  One trace per element."""
+    import random
+    from molli.chem.atom import Element, AtomType, AtomGeom, Atom
+    E = {e.symbol: e for e in Element}
+    rnd = random.Random(seed)
+    traces, calls = {}, 0
+    for el, at, g in items:
+        a = Atom(E[el], atype=AtomType[at], geom=AtomGeom[g])
+        evs = traces.setdefault(el, [])
+        e = {"ev": "atype", "el": el, "at": at, "g": g, "tok": {"pre": "", "suf": ""},
+             "res": {"out": "raise", "el": "", "at": "", "g": ""}, "tok2": {"pre": "", "suf": ""}}
+        try:
+            calls += 1
+            tok = a.get_mol2_type()
+            e["tok"] = split_tok(tok)
+            n = retype_pretyped(tok, rnd)
+            calls += n
+            evs.append({"ev": "history", "retyped_tokens": [tok], "calls": n, "other_texts": 0})
+            b = Atom()
+            calls += 2
+            b.set_mol2_type(tok)
+            e["res"] = {"out": "ok", "el": b.element.symbol, "at": AtomType(b.atype).name, "g": AtomGeom(b.geom).name}
+            e["tok2"] = split_tok(b.get_mol2_type())
+        except Exception as ex:
+            e["exc"] = type(ex).__name__
+        evs.append(e)
+    return [{"tid": f"th-{el}", "ev": evs} for el, evs in traces.items()], calls
+
+
 # ----------------------------------------------------------------------------- the four real calls
 def _loader(kind, route):
     import molli as ml
@@ -283,10 +378,12 @@ def _raise(ex):
     return {"out": "raise", "blocks": [], "exc": f"{type(ex).__name__}: {str(ex)[:120]}"}
 
 
-def run_case(o, route: str, edit=None):
+def run_case(o, route: str, edit=None, hist=None):
     """Build(observed) / write / read / write2 / read2 events of one real object; stops at the first exception.
     edit = (ops, object after the edits as the spec computed it): the same object is then edited and written / read
-    once more (events edit / write / read).  Returns (events, number of molli calls, first text)."""
+    once more (events edit / write / read).  hist = {"where": subset of {"before_read", "before_reread"}, "rnd", "prev"}:
+    unrelated public-API calls (history_calls) are made at those points and the first text is read once more
+    (event reread).  Returns (events, number of molli calls, first text)."""
     kind = kind_of(o)
     ev = [{"ev": "build", "obj": {"kind": kind, "blocks": abstract(o)}}]
     calls, text = 0, None
@@ -303,6 +400,10 @@ def run_case(o, route: str, edit=None):
                 break
             ev.append({"ev": w, "res": {"out": "ok", "blocks": tokenize(t)}})      # harness errors are not outcomes
             text = text or t
+            if hist and w == "write" and "before_read" in hist["where"]:
+                h = history_calls(ev[-1]["res"]["blocks"], hist["rnd"], hist.get("prev"))
+                calls += h["calls"]
+                ev.append(h)
             try:
                 calls += 1
                 cur = load(t)
@@ -316,7 +417,19 @@ def run_case(o, route: str, edit=None):
                 # (objects handed to run_case are in range), and not representable for TLC
                 ev.append({"ev": r, "route": route, "res": {"out": "unrepresentable", "blocks": [], "exc": str(ex)[:120]}})
                 break
-        if edit is not None and len(ev) == 5:
+            if hist and r == "read" and "before_reread" in hist["where"]:
+                h = history_calls(ev[1]["res"]["blocks"], hist["rnd"], hist.get("prev"))
+                calls += h["calls"] + 1
+                ev.append(h)
+                try:
+                    again = load(t)                     # the same first text, once more
+                    ev.append({"ev": "reread", "route": route, "res": {"out": "ok", "blocks": abstract(again)}})
+                except ValueError as ex:
+                    ev.append({"ev": "reread", "route": route, "res": {"out": "unrepresentable", "blocks": [], "exc": str(ex)[:120]}})
+                except Exception as ex:
+                    ev.append({"ev": "reread", "route": route, "res": _raise(ex)})
+        if edit is not None and [e["ev"] for e in ev if e["ev"] not in ("history", "reread")] == \
+                ["build", "write", "read", "write2", "read2"] and ev[-1]["res"]["out"] == "ok":
             ops, newobj = edit
             keep = apply_edits(o, ops, newobj)    # noqa: F841  (kept alive until the function returns)
             ev.append({"ev": "edit", "ops": ops, "obj": {"kind": kind, "blocks": abstract(o)}})
